@@ -1155,7 +1155,9 @@ pub fn parse(lex_tokens: &Vec<LexerToken>) -> Result<ParseResult, CompilerError>
 
                             // if its a subexpression with no right
                             // it was at the end of the expression and should be dropped
-                            if left_node.definition == Definition::Subexpression && left_node.get_right() == Some(current_id) {
+                            if (left_node.definition == Definition::Subexpression || left_node.definition == Definition::ExpressionSeparator)
+                                && left_node.get_right() == Some(current_id)
+                            {
                                 // set the subexpression's left's parent to its parent
                                 let new_parent = left_node.get_parent();
                                 let l = left_node.get_left();
